@@ -96,7 +96,9 @@ fn main() {
       if strict {
         l.count("requests_with_bit_reproducible_scores(strict tie rule)", 1);
       }
-      let k = if rng.chance(0.3) { rng.urange(1, 5) } else { rng.urange(1, 50) };
+      let mut k = if rng.chance(0.3) { rng.urange(1, 5) } else { rng.urange(1, 50) };
+      let at_cliff = rng.chance(0.4);
+      let cliff_off = rng.urange(0, 2);
       let mut base = json!({"query": query, "profile": true});
       if rng.chance(0.1) {
         base["filter"] = scoring::gen_filter(rng, 1);
@@ -116,6 +118,25 @@ fn main() {
       if full.hits.is_empty() {
         l.count("requests_without_matches", 1);
         continue;
+      }
+      if at_cliff && full.hits.len() > 2 {
+        // put the cut next to the largest relative score drop among the first hits: that is where
+        // "documents with the strong terms" end, i.e. where threshold/upper-bound off-by-ones show
+        let upto = full.hits.len().min(51) - 1;
+        let mut best = (0usize, 0.0f64);
+        for i in 0..upto {
+          let (a, b) = (full.hits[i].1 as f64, full.hits[i + 1].1 as f64);
+          if a > 0.0 {
+            let drop = (a - b) / a;
+            if drop > best.1 {
+              best = (i + 1, drop);
+            }
+          }
+        }
+        if best.0 > 0 {
+          k = (best.0 + cliff_off).clamp(1, 50);
+          l.count("requests_with_limit_at_score_cliff", 1);
+        }
       }
       let mut strategies: Vec<(String, Value)> = vec![("wand".into(), json!({"execution": "wand"})), ("bmw".into(), json!({"execution": "bmw"}))];
       let nsizes = if quick { 1 } else { 4 };
@@ -213,6 +234,18 @@ fn main() {
             None
           };
           report(l, d, "page-1", &req, &got.hits, wand_ok);
+        }
+        // ---- the pruned run must still know that more hits exist ------------------------------
+        if page1_ok && full.hits.len() > k && got.next_cursor.is_none() {
+          l.count("next_cursor_missing", 1);
+          let wand_has = if exec_class == "bmw" { run(&built.reader, &as_wand(&req)).ok().map(|w| w.next_cursor.is_some()) } else { None };
+          let d = scoring::TopkDiff {
+            kind: "next-cursor-missing-although-more-hits-exist".into(),
+            detail: json!({"returned": got.hits.len(), "exhaustive_matches": full.hits.len()}),
+            only_omits_better: false,
+            only_omits: true, // the (limit+1)-th candidate was never found: an omission
+          };
+          report(l, d, "page-1", &req, &got.hits, wand_has);
         }
         // ---- page 2 through the cursor ------------------------------------------------------
         if si == page2_for && page1_ok {
